@@ -123,6 +123,54 @@ let show_password (ts : (n list * n) list) ent consumed =
     (hex_of_bytes (List.concat (List.map fst ts))) (join0 atoms) (join0 seps) (show_entropy ent) consumed
     (show_roundtrip ts)
 
+let show_strs (ss : n list list) =
+  if ss = [] then "0" else Printf.sprintf "%d,%s" (List.length ss) (String.concat "," (List.map hex_of_bytes ss))
+
+(* "<k>,<hex>,<hex>..." or "0" or "none" *)
+let parse_strs s =
+  if s = "0" then [] else
+  match String.split_on_char ',' s with
+  | _ :: items -> List.map bytes_of_hex items
+  | [] -> []
+let next_emit t = let s = next t in if s = "none" then None else Some (parse_strs s)
+let next_titles t =
+  let s = next t in
+  let tbl = if s = "0" then [] else
+    (match String.split_on_char ',' s with
+     | _ :: items -> List.map (fun it -> match String.split_on_char '>' it with
+                                         | [a; b] -> (bytes_of_hex a, bytes_of_hex b)
+                                         | _ -> failwith "bad title pair") items
+     | [] -> []) in
+  (tbl, s)
+let next_words t =
+  match t.rest with
+  | "nil" :: r -> t.rest <- r; ([], "nil")
+  | "zero" :: r -> t.rest <- r; ([], "zero")
+  | _ -> (next_list t next_bytes, "list")
+let next_sep t =
+  match next t with
+  | "char" -> SepChar (next_bytes t)
+  | "const" -> SepConst (next_bytes t)
+  | "recipe" -> SepRecipe (next_recipe t)
+  | "preset" -> (match next t with
+      | "SFNone" -> sFNone | "SFDigits1" -> sFDigits1 | "SFDigits2" -> sFDigits2
+      | "SFDigitsNoAmbiguous1" -> sFDigitsNoAmbiguous1 | "SFDigitsNoAmbiguous2" -> sFDigitsNoAmbiguous2
+      | "SFSymbols" -> sFSymbols | "SFDigitsSymbols" -> sFDigitsSymbols
+      | p -> failwith ("unknown preset " ^ p))
+  | k -> failwith ("bad separator kind " ^ k)
+
+let show_wl_entropy (e : wl_entropy) =
+  Printf.sprintf "W:%s:%s:%s:%s" (ZA.to_string (zar_of_z e.weLength)) (ZA.to_string (zar_of_n e.weSize))
+    (match e.weBonus with BonusNone -> "n" | BonusRandom -> "r" | BonusOne -> "o")
+    (match e.weSep with None -> "-" | Some se -> show_entropy se)
+
+let show_password_wl (ts : (n list * n) list) ent consumed =
+  let atoms = List.filter_map (fun (v, ty) -> if int_of_n ty = 1 then Some v else None) ts in
+  let seps = List.filter_map (fun (v, ty) -> if int_of_n ty = 0 then Some v else None) ts in
+  Printf.sprintf "ok %s str=%s atoms=%s seps=%s ent=%s consumed=%d %s" (show_tokens ts)
+    (hex_of_bytes (List.concat (List.map fst ts))) (join0 atoms) (join0 seps) (show_wl_entropy ent) consumed
+    (show_roundtrip ts)
+
 let run_case fam t =
   match fam with
   | "draw" ->
@@ -158,6 +206,46 @@ let run_case fam t =
        | Done ts -> Printf.sprintf "ok %s entok=1 %s" (show_tokens (List.map (fun tk -> (tk.value, tk.ttype)) ts)) no_diag
        | Err e -> Printf.sprintf "err %s %s" (err_name e) no_diag
        | Panic p -> Printf.sprintf "panic %s %s" (panic_name p) no_diag)
+  | "wordlist" ->
+      let emit = next_emit t in
+      let (tbl, tstr) = next_titles t in
+      let (l, _) = next_words t in
+      let (o, d) = run_new_word_list tbl emit l in
+      (match o with
+       | Done (Some wl) ->
+           Printf.sprintf "ok size=%d words=%s titles=%s slice=same %s" (List.length wl.wlWords) (show_strs wl.wlWords) tstr (render_diag d)
+       | Done None -> Printf.sprintf "ORDER-IS-NOT-A-REARRANGEMENT-OF-THE-KEPT-WORDS %s" (render_diag d)
+       | Err e -> Printf.sprintf "err %s slice=same %s" (err_name e) (render_diag d)
+       | Panic p -> Printf.sprintf "panic %s %s" (panic_name p) (render_diag d))
+  | "wlgen" ->
+      let emit = next_emit t in
+      let (tbl, tstr) = next_titles t in
+      let (l, lk) = next_words t in
+      let wlo = (match lk with
+        | "nil" -> Ok None
+        | "zero" -> Ok (Some { wlWords = []; wlUncap = O })
+        | _ -> (match run_new_word_list tbl emit l with
+                | (Done (Some wl), _) -> Ok (Some wl)
+                | (Done None, _) -> Error "ORDER-IS-NOT-A-REARRANGEMENT-OF-THE-KEPT-WORDS"
+                | (Err e, _) -> Error ("err " ^ err_name e ^ " atconstruction")
+                | (Panic p, _) -> Error ("panic " ^ panic_name p))) in
+      let len = next_z t in
+      let sep = next_sep t in
+      let cap = cap_of_string (next_bytes t) in
+      let b = next_budget t in
+      let src = next_source t in
+      (match wlo with
+       | Error m -> m ^ " " ^ no_diag
+       | Ok wl ->
+         let r = { wrList = wl; wrLength = len; wrSep = sep; wrCap = cap } in
+         let (o, consumed) = run_wlgen tbl b r src in
+         let d = render_diag (wl_generate_diag r) in
+         let pre = (match wl with Some w when lk <> "zero" -> Printf.sprintf "order=%s titles=%s " (show_strs w.wlWords) tstr | _ -> "") in
+         (match o with
+          | Done (ts, e) ->
+              pre ^ show_password_wl (List.map (fun tk -> (tk.value, tk.ttype)) ts) e (int_of_n consumed) ^ " " ^ d
+          | Err e -> Printf.sprintf "%serr %s consumed=%d %s" pre (err_name e) (int_of_n consumed) d
+          | Panic p -> Printf.sprintf "%spanic %s consumed=%d %s" pre (panic_name p) (int_of_n consumed) d))
   | _ -> failwith ("unknown family " ^ fam)
 
 let () =
